@@ -142,6 +142,24 @@ func runC04(c *Ctx) {
 			why = "receive from the timer armed with token time - clock"
 		}
 		c.Check(ok1 || ok2, "O4.1", wk+":return-true-not-early", r.Pos(), "a `return true` of Wait must be justified by "+why+" (neither found)")
+		// O4.2: the overdue left behind by this Wait describes THIS token: a store made in this call
+		// reaches every `return true`; on the timer path (token waited for = on time) it is the constant 0,
+		// on the already-due path it is the computed difference.
+		{
+			sts, fromBefore := ReachingFieldStores(r, "Waiter", "overdueDuration")
+			okOv := !fromBefore && len(sts) > 0
+			for _, st := range sts {
+				k, isK := ConstInt(st.Val)
+				if ok2 && !(isK && k == 0) {
+					okOv = false
+				}
+				if ok1 && isK {
+					okOv = false
+				}
+			}
+			c.Check(okOv, "O4.2", wk+":overdue-describes-the-token-just-released", r.Pos(),
+				fmt.Sprintf("every `return true` must be reached by a store to overdueDuration made in this call (0 after waiting on the timer, the computed lateness otherwise); value left over from an earlier token reaches it: %v, stores: %d", fromBefore, len(sts)))
+		}
 	}
 	c.Floor("O4.1", "`return true` exits of Waiter.Wait", nTrue, 2)
 	// lastNow writers: only time.Now()
